@@ -444,7 +444,7 @@ func (g *Gen) havocRegion(st *State, r Region) {
 		} else {
 			// a whole object: its real cells; ghost state attached to an object is named separately (ghost(x))
 			for _, hs := range g.allHeapSorts() {
-				if hs != "GInt" && hs != "GOwn" {
+				if hs != "GInt" && hs != "GOwn" && hs != "GLock" {
 					sorts = append(sorts, hs)
 				}
 			}
